@@ -501,15 +501,13 @@ Mechanism = Tuple[str, str, Callable[[Context, Dict[str, Any]], bool]]
 # clause -> ordered list of (suffix, finding id, mechanism); the first that holds labels the check
 WRAP_ANY: Mechanism = ("wrap-prone", "C03-F6", wrap_prone_any)
 WRAP_SWALLOWS: Mechanism = ("wrap-prone-hull-swallows", "C03-F6", hull_swallows)
-SPAN_ANY: Mechanism = ("origin-spanning-gene-in-chain", "C03-F9", spanning_member_any)
-SPAN_UNJOINED: Mechanism = ("origin-spanning-gene-in-chain", "C03-F9", spanning_member_unjoined)
+# C03-F4 (two-part window), C03-F9 (origin-spanning first core) and C03-F12 (lookup scan) were repaired in /repo:
+# no input class is attached to them any more, their witnesses are replayed as regression tests
 SUP_OVER: Mechanism = ("superior-overlaps", "C03-F7", superior_overlaps)
 SUP_LATE: Mechanism = ("superior-chain-over-origin", "C03-F10", superior_chain_over_origin)
 
 MECHANISMS: Dict[str, List[Mechanism]] = {
     "anchoring-genes": [
-        ("window-edge-over-origin", "C03-F4", window_edge),
-        ("lookup-scan-loses-neighbour", "C03-F12", lookup_scan_loses_neighbour),
     ],
     "neighbourhood": [("ring-closes", "C03-F5", ring_closes)],
     "no-unexpected-exception": [
@@ -521,9 +519,9 @@ MECHANISMS: Dict[str, List[Mechanism]] = {
     "core-smallest-span": [("wrap-prone", "C03-F6", wrap_prone_own)],
     "extenders-core": [("wrap-prone", "C03-F6", wrap_prone_own),
                        ("half-ring", "C03-F6", half_ring_with_extenders)],
-    "chains-maximal": [SUP_OVER, WRAP_SWALLOWS, SPAN_UNJOINED, SUP_LATE],
-    "one-protocluster-per-chain": [WRAP_SWALLOWS, SPAN_UNJOINED, SUP_LATE],
-    "kept-unless-superior-covers": [SUP_OVER, SUP_LATE, WRAP_ANY, SPAN_ANY],
+    "chains-maximal": [SUP_OVER, WRAP_SWALLOWS, SUP_LATE],
+    "one-protocluster-per-chain": [WRAP_SWALLOWS, SUP_LATE],
+    "kept-unless-superior-covers": [SUP_OVER, SUP_LATE, WRAP_ANY],
     "dropped-when-superior-covers": [WRAP_ANY, SUP_LATE],
 }
 
@@ -563,9 +561,6 @@ FINDING_IDS = sorted({owner for entries in MECHANISMS.values() for _, owner, _ i
 
 CASE_PRIORITY = (
     "gene-at-0-with-origin-spanning-gene",
-    "window-edge-over-origin",
-    "lookup-scan-loses-neighbour",
-    "origin-spanning-gene-in-chain",
     "wrap-prone",
     "ring-closes",
     "superior-overlaps-over-origin",
